@@ -423,7 +423,11 @@ class Run:
         cls = g.aclient.SnmpSession if cfg.get("flavour", "sync") == "async" else g.sclient.SnmpSession
         kw = {}
         ver = {"v1": g.SnmpVersion.v1, "v2c": g.SnmpVersion.v2c, "v3": g.SnmpVersion.v3}[cfg.get("version", "v2c")]
-        kw["version"] = ver
+        if not cfg.get("version_auto"):
+            kw["version"] = ver  # otherwise left to the constructor: v3 iff a user is given, else v2c
+        for k in ("tos", "send_buffer", "recv_buffer"):
+            if k in cfg:
+                kw[k] = cfg[k]
         if "community" in cfg:
             kw["community"] = cfg["community"]
         if cfg.get("user") is not None:
@@ -438,7 +442,12 @@ class Run:
         if "allow_bulk" in cfg:
             kw["allow_bulk"] = cfg["allow_bulk"]
         if cfg.get("limit_rps") is not None:
-            kw["limit_rps"] = cfg["limit_rps"]
+            if cfg.get("policer_arg"):
+                kw["policer"] = g.policer.RPSPolicer(float(cfg["limit_rps"]))
+                if cfg.get("policer_arg") == "both":
+                    kw["limit_rps"] = 1_000_000  # must be overridden by policer=
+            else:
+                kw["limit_rps"] = cfg["limit_rps"]
         s = cls("127.0.0.1", port=10161 + idx, **kw)
         self.sim.add_endpoint(idx, s._fd)
         return s
@@ -518,7 +527,10 @@ class Run:
         elif kind == "walk":
             self.record(s, i, op, lambda: self.walk_sync(sess, op))
         elif kind == "refresh":
-            self.record(s, i, op, lambda: norm(sess.refresh()))
+            if op.get("via") == "enter":
+                self.record(s, i, op, lambda: norm(sess.__enter__() is sess))
+            else:
+                self.record(s, i, op, lambda: norm(sess.refresh()))
         elif kind == "engine_id":
             self.record(s, i, op, lambda: norm(sess.get_engine_id()))
         else:
@@ -609,7 +621,9 @@ class Run:
                 await self.record_async(s, i, op, f)
             elif kind == "refresh":
 
-                async def f():
+                async def f(op=op):
+                    if op.get("via") == "enter":
+                        return norm((await sess.__aenter__()) is sess)
                     return norm(await sess.refresh())
 
                 await self.record_async(s, i, op, f)
